@@ -3,8 +3,8 @@
    Encoding conventions: booleans 0/1, option Z as -1 where stated, errors as a leading status group.
    Per-property command sets live in model/Run_Cxx.v (run_cxx : Z -> io -> option io). *)
 From CM Require Import lib.Prelude model.RunBase model.Startbit model.Codec model.ArbId.
-From CM Require model.Run_C03 model.Run_C11 model.Run_C17 model.Run_C12 model.Run_C06 model.Run_C07 model.Run_C19 model.Run_C13 model.Run_C16 model.Run_C04 model.Run_C05 model.Run_C10 model.Run_C14 model.Run_C15 model.Run_C20.
-Import Run_C03 Run_C11 Run_C17 Run_C12 Run_C06 Run_C07 Run_C19 Run_C13 Run_C16 Run_C04 Run_C05 Run_C10 Run_C14 Run_C15 Run_C20.
+From CM Require model.Run_C03 model.Run_C11 model.Run_C17 model.Run_C12 model.Run_C06 model.Run_C07 model.Run_C19 model.Run_C13 model.Run_C16 model.Run_C04 model.Run_C05 model.Run_C10 model.Run_C14 model.Run_C15 model.Run_C20 model.Run_C18.
+Import Run_C03 Run_C11 Run_C17 Run_C12 Run_C06 Run_C07 Run_C19 Run_C13 Run_C16 Run_C04 Run_C05 Run_C10 Run_C14 Run_C15 Run_C20 Run_C18.
 
 (* all six (bit_numbering, start_little) notations, in the order the harness uses *)
 Definition notations : list (option Z * bool) :=
@@ -128,5 +128,6 @@ Definition run (cmd : Z) (a : io) : io :=
   else if h =? 14 then run_c14 cmd a
   else if h =? 15 then run_c15 cmd a
   else if h =? 20 then run_c20 cmd a
+  else if h =? 18 then run_c18 cmd a
   else run_core cmd a.
 Definition mismatches := mismatches_with run.
